@@ -367,6 +367,16 @@ def _exactify(v):
     return v
 
 
+def _exact_cells(a):
+    """raw float / complex cells of a freshly built object array become exact scalars (exact mode only)"""
+    if STATE.exact and STATE.alg is not None:
+        for idx in _np.ndindex(a.shape):
+            c = a[idx]
+            if isinstance(c, (float, complex, _np.floating, _np.complexfloating)):
+                a[idx] = X(val(c))
+    return a
+
+
 class XArray(_np.ndarray):
     """object ndarray whose cells are exact scalars: astype(float/complex) is the identity (A1); raw floats stored
     into it are converted to exact scalars at once, so no floating-point arithmetic happens between cells."""
@@ -601,14 +611,14 @@ class _NPX(_types.ModuleType):
                 or (STATE.exact and dtype is None and _has_float(x)):
             k.pop("copy", None)
             a = _np.array(x, dtype=object)
-            return a.view(XArray)
+            return _exact_cells(a).view(XArray)
         return _np.array(x, dtype=_real_dtype(dtype), **k)
 
     def asarray(self, x, dtype=None, **k):
         if _is_obj(x) or getattr(x, "_pyvc_symbolic", False):
             return x
         if _symbolic(x) or (STATE.exact and dtype is not None and _inexact(dtype)):
-            return _np.array(x, dtype=object).view(XArray)
+            return _exact_cells(_np.array(x, dtype=object)).view(XArray)
         return _np.asarray(x, dtype=_real_dtype(dtype), **k)
 
     def ascontiguousarray(self, x, dtype=None, **k):
